@@ -1879,6 +1879,134 @@ def inline_only(fn: ast.FunctionDef, resolve_call) -> ast.FunctionDef:
 SIBLINGS: Dict[str, ast.Module] = {}        # module name -> tree of the repo's other modules (filled by core.Ctx.parse): targets of `from formak.X import f`
 
 
+def class_attr_constants(cls: ast.ClassDef, mod: Optional[ast.Module] = None) -> Dict[str, ast.expr]:
+    """class-body `X = <call-free expression or len(..)>` that no method of the class (or of its module-level bases) re-binds through self / cls:
+    `self.X` / `cls.X` read in a method IS that expression (CLASS-ATTR)"""
+    classes = {c.name: c for c in (mod.body if mod is not None else []) if isinstance(c, ast.ClassDef)}
+    chain, todo = [], [cls]
+    while todo:
+        c = todo.pop()
+        if c in chain:
+            continue
+        chain.append(c)
+        for b in c.bases:
+            bn = ast.unparse(b).split(".")[-1]
+            if bn in classes:
+                todo.append(classes[bn])
+    stored = set()
+    for c in chain:
+        for n in ast.walk(c):
+            if isinstance(n, ast.Attribute) and isinstance(n.ctx, (ast.Store, ast.Del)) and isinstance(n.value, ast.Name) and n.value.id in ("self", "cls"):
+                stored.add(n.attr)
+            if isinstance(n, ast.Call) and isinstance(n.func, ast.Name) and n.func.id in ("setattr", "delattr"):
+                return {}
+    out = {}
+    for st in cls.body:
+        if isinstance(st, ast.Assign) and len(st.targets) == 1 and isinstance(st.targets[0], ast.Name) and st.targets[0].id not in stored:
+            v = st.value
+            if not any(isinstance(x, ast.Call) and not (isinstance(x.func, ast.Name) and x.func.id == "len") for x in ast.walk(v)) \
+                    and not any(isinstance(x, (ast.Lambda, ast.ListComp, ast.DictComp, ast.SetComp, ast.GeneratorExp, ast.Dict, ast.List, ast.Set)) for x in ast.walk(v)):
+                out[st.targets[0].id] = v
+    return out
+
+
+def subst_class_attrs(fn: ast.FunctionDef, consts: Dict[str, ast.expr]) -> ast.FunctionDef:
+    if not consts:
+        return fn
+    shadow = {a.arg for a in ast.walk(fn.args) if isinstance(a, ast.arg)} | {n.id for n in ast.walk(fn) if isinstance(n, ast.Name) and isinstance(n.ctx, ast.Store)}
+
+    class T(ast.NodeTransformer):
+        def visit_Attribute(self, n):
+            self.generic_visit(n)
+            if isinstance(n.ctx, ast.Load) and isinstance(n.value, ast.Name) and n.value.id in ("self", "cls") and n.attr in consts \
+                    and not ({x.id for x in ast.walk(consts[n.attr]) if isinstance(x, ast.Name)} & shadow):
+                return ast.copy_location(copy.deepcopy(consts[n.attr]), n)
+            return n
+    out = T().visit(copy.deepcopy(fn))
+    ast.fix_missing_locations(out)
+    return out
+
+
+def expand_sibling_calls(node: ast.AST, mod: ast.Module):
+    """EXPR-INLINE of helpers that live in a sibling module of the package: `common.f(a, k=b)` (or `f(..)` after `from formak.common import f`) whose
+    body is one `return E` becomes E[params := args] when every argument is a name / attribute chain / constant (evaluating it where the
+    parameter stood is the same computation).  In place; returns {sibling module name: {helper names used}} for the callers' trust checks."""
+    alias, direct = {}, {}
+    for n in mod.body:
+        if isinstance(n, ast.ImportFrom) and n.module and n.module.split(".")[0] == "formak":
+            parts = n.module.split(".")
+            for a in n.names:
+                local = a.asname or a.name
+                if len(parts) == 1 and a.name in SIBLINGS:
+                    alias[local] = a.name
+                elif len(parts) > 1 and parts[-1] in SIBLINGS:
+                    direct[local] = (parts[-1], a.name)
+        elif isinstance(n, ast.Import):
+            for a in n.names:
+                parts = a.name.split(".")
+                if parts[0] == "formak" and len(parts) == 2 and parts[1] in SIBLINGS and a.asname:
+                    alias[a.asname] = parts[1]
+    local_defs = {f.name for f in mod.body if isinstance(f, (ast.FunctionDef, ast.ClassDef))}
+    used: Dict[str, set] = {}
+
+    def lookup(f):
+        if isinstance(f, ast.Attribute) and isinstance(f.value, ast.Name) and f.value.id in alias:
+            m, name = alias[f.value.id], f.attr
+        elif isinstance(f, ast.Name) and f.id in direct and f.id not in local_defs:
+            m, name = direct[f.id]
+        else:
+            return None
+        h = next((x for x in SIBLINGS[m].body if isinstance(x, ast.FunctionDef) and x.name == name), None)
+        if h is None or h.decorator_list or h.args.vararg or h.args.kwarg:
+            return None
+        body = [b for b in h.body if not (isinstance(b, ast.Expr) and isinstance(b.value, ast.Constant))]
+        if len(body) != 1 or not isinstance(body[0], ast.Return) or body[0].value is None:
+            return None
+        return m, h, body[0].value
+
+    def simple(e):
+        return all(isinstance(x, (ast.Name, ast.Constant, ast.Attribute, ast.expr_context)) for x in ast.walk(e))
+
+    class T(ast.NodeTransformer):
+        def visit_Call(self, c):
+            self.generic_visit(c)
+            hit = lookup(c.func)
+            if hit is None:
+                return c
+            m, h, E = hit
+            pos = [a.arg for a in h.args.posonlyargs + h.args.args]
+            params = pos + [a.arg for a in h.args.kwonlyargs]
+            if any(isinstance(a, ast.Starred) for a in c.args) or any(k.arg is None for k in c.keywords) or len(c.args) > len(pos):
+                return c
+            bound = dict(zip(pos, c.args))
+            for k in c.keywords:
+                if k.arg not in params or k.arg in bound:
+                    return c
+                bound[k.arg] = k.value
+            defaults = dict(zip(pos[len(pos) - len(h.args.defaults):], h.args.defaults)) if h.args.defaults else {}
+            defaults.update({a.arg: d for a, d in zip(h.args.kwonlyargs, h.args.kw_defaults) if d is not None})
+            for p_ in params:
+                if p_ not in bound:
+                    if p_ not in defaults:
+                        return c
+                    bound[p_] = defaults[p_]
+            if not all(simple(v) for v in bound.values()):
+                return c
+            # names the helper binds itself (comprehension / lambda variables) must not capture an argument's names
+            inner = {x.id for x in ast.walk(E) if isinstance(x, ast.Name) and isinstance(x.ctx, ast.Store)} | {a.arg for a in ast.walk(E) if isinstance(a, ast.arg)}
+            if inner & {x.id for v in bound.values() for x in ast.walk(v) if isinstance(x, ast.Name)}:
+                return c
+
+            class S(ast.NodeTransformer):
+                def visit_Name(self, n):
+                    return copy.deepcopy(bound[n.id]) if isinstance(n.ctx, ast.Load) and n.id in bound and n.id not in inner else n
+            used.setdefault(m, set()).add(h.name)
+            return ast.copy_location(S().visit(copy.deepcopy(E)), c)
+    T().visit(node)
+    ast.fix_missing_locations(node)
+    return used
+
+
 def class_resolver(mod: ast.Module, cls: Optional[ast.ClassDef] = None, exclude=(), module_funcs=True):
     """resolve self.m(...) / cls.m(...) in `cls` (and module-level base classes) and f(...) to module-level functions (its own, or one imported by
     name from a sibling module of the package; `common.f(...)` for a sibling imported as a module)"""
@@ -2498,9 +2626,121 @@ class _SortKey(ast.NodeTransformer):
         return c
 
 
+def _restructure_continue(body: List[ast.stmt]) -> Optional[List[ast.stmt]]:
+    """a loop body whose only `continue`s are guard exits (`if c: ...; continue` followed by the rest) written without them:
+    `if c: ... else: <rest>` (exact); None when a continue / break remains elsewhere"""
+    out = []
+    for i, st in enumerate(body):
+        if isinstance(st, ast.If) and st.body and isinstance(st.body[-1], ast.Continue) and not st.orelse:
+            rest = _restructure_continue(body[i + 1:])
+            head = _restructure_continue(st.body[:-1])
+            if rest is None or head is None:
+                return None
+            out.append(ast.copy_location(ast.If(st.test, head or [ast.Pass()], rest), st))
+            return out
+        if isinstance(st, ast.Continue) and i == len(body) - 1:
+            return out
+        if any(isinstance(x, (ast.Continue, ast.Break)) for x in ast.walk(st) if not isinstance(x, (ast.For, ast.While)) or x is st) \
+                and not isinstance(st, (ast.For, ast.While)):
+            return None
+        out.append(st)
+    return out
+
+
+def unroll_constant_tables(tree: ast.Module) -> int:
+    """UNROLL (load time): `for a, b in TABLE: S` with TABLE a module-level tuple / list of constants (or of tuples of constants), bound once and
+    never re-bound, at most 6 entries: S once per entry with the loop variables replaced by that entry's constants -- then `getattr(x, "name")`
+    is `x.name` and a constant string in an f-string is its text.  (A table-driven loop and the hand-written sequence are the same statements.)"""
+    counts: Dict[str, int] = {}
+    tables: Dict[str, list] = {}
+    for st in tree.body:
+        if isinstance(st, (ast.Assign, ast.AnnAssign)):
+            for t in (st.targets if isinstance(st, ast.Assign) else [st.target]):
+                if isinstance(t, ast.Name):
+                    counts[t.id] = counts.get(t.id, 0) + 1
+    rebound = {x.id for f in ast.walk(tree) if isinstance(f, (ast.FunctionDef, ast.Lambda)) for x in ast.walk(f) if isinstance(x, ast.Name) and isinstance(x.ctx, ast.Store)}
+    rebound |= {g for f in ast.walk(tree) if isinstance(f, ast.Global) for g in f.names}
+
+    def const_row(e):
+        if isinstance(e, ast.Constant):
+            return [e]
+        if isinstance(e, ast.Tuple) and e.elts and all(isinstance(x, ast.Constant) for x in e.elts):
+            return list(e.elts)
+        return None
+    for st in tree.body:
+        if isinstance(st, ast.Assign) and len(st.targets) == 1 and isinstance(st.targets[0], ast.Name) and counts.get(st.targets[0].id) == 1 \
+                and st.targets[0].id not in rebound and isinstance(st.value, (ast.Tuple, ast.List)) and 1 <= len(st.value.elts) <= 6:
+            rows = [const_row(e) for e in st.value.elts]
+            if all(r is not None for r in rows) and len({len(r) for r in rows}) == 1:
+                tables[st.targets[0].id] = rows
+    if not tables:
+        return 0
+    n = [0]
+
+    def fold(node):
+        class F(ast.NodeTransformer):
+            def visit_Call(self, c):
+                self.generic_visit(c)
+                if isinstance(c.func, ast.Name) and c.func.id == "getattr" and len(c.args) == 2 and not c.keywords and isinstance(c.args[1], ast.Constant) \
+                        and isinstance(c.args[1].value, str) and c.args[1].value.isidentifier():
+                    return ast.copy_location(ast.Attribute(c.args[0], c.args[1].value, ast.Load()), c)
+                return c
+
+            def visit_JoinedStr(self, js):
+                self.generic_visit(js)
+                vals = []
+                for v in js.values:
+                    if isinstance(v, ast.FormattedValue) and isinstance(v.value, ast.Constant) and isinstance(v.value.value, str) and v.conversion == -1 \
+                            and v.format_spec is None:
+                        v = ast.Constant(v.value.value)
+                    if isinstance(v, ast.Constant) and vals and isinstance(vals[-1], ast.Constant):
+                        vals[-1] = ast.Constant(vals[-1].value + v.value)
+                    else:
+                        vals.append(v)
+                js.values = vals
+                return js
+        return F().visit(node)
+
+    def conv(stmts, shadow):
+        out = []
+        for st in stmts:
+            for fld in ("body", "orelse", "finalbody"):
+                v = getattr(st, fld, None)
+                if isinstance(v, list) and v and all(isinstance(x, ast.stmt) for x in v) and not isinstance(st, (ast.FunctionDef, ast.ClassDef)):
+                    setattr(st, fld, conv(v, shadow))
+            if isinstance(st, ast.For) and not st.orelse and isinstance(st.iter, ast.Name) and st.iter.id in tables and st.iter.id not in shadow and len(st.body) <= 15:
+                rows = tables[st.iter.id]
+                tg = [st.target] if isinstance(st.target, ast.Name) else (list(st.target.elts) if isinstance(st.target, (ast.Tuple, ast.List)) else None)
+                body = _restructure_continue(st.body)
+                if tg is not None and all(isinstance(t, ast.Name) for t in tg) and len(tg) == len(rows[0]) and body is not None \
+                        and not any(isinstance(x, ast.Name) and isinstance(x.ctx, ast.Store) and x.id in {t.id for t in tg} for b in body for x in ast.walk(b)) \
+                        and not any(isinstance(x, (ast.Yield, ast.YieldFrom, ast.FunctionDef, ast.Lambda)) for b in body for x in ast.walk(b)):
+                    names = [t.id for t in tg]
+                    for row in rows:
+                        m = dict(zip(names, row))
+
+                        class S(ast.NodeTransformer):
+                            def visit_Name(self, nm):
+                                return ast.copy_location(ast.Constant(m[nm.id].value), nm) if isinstance(nm.ctx, ast.Load) and nm.id in m else nm
+                        for b in body:
+                            out.append(fold(S().visit(copy.deepcopy(b))))
+                    n[0] += 1
+                    continue
+            out.append(st)
+        return out
+    for f in ast.walk(tree):
+        if isinstance(f, (ast.FunctionDef, ast.AsyncFunctionDef)):
+            shadow = {a.arg for a in ast.walk(f.args) if isinstance(a, ast.arg)} | {x.id for x in ast.walk(f) if isinstance(x, ast.Name) and isinstance(x.ctx, ast.Store)}
+            f.body = conv(f.body, shadow)
+    if n[0]:
+        ast.fix_missing_locations(tree)
+    return n[0]
+
+
 def canon_module(tree: ast.Module) -> ast.Module:
     """FORWARD + CMPDIR over every function of the module (in place); records the counts on the tree"""
     nf = 0
+    unroll_constant_tables(tree)
     for n in ast.walk(tree):
         if isinstance(n, (ast.FunctionDef, ast.AsyncFunctionDef)):
             n.body = unwalrus(n.body)
